@@ -222,6 +222,47 @@ def h_obsrange(T, L, P):
     return fn
 
 
+def h_obsrange_clim(T, L, P):
+    """-obsrange together with -c / -C: the range applies to the observation itself, not to its anomaly."""
+    def fn(S):
+        data = load.modules["verif.data"]
+        f = load.modules["verif.field"]
+        ax = load.modules["verif.axis"]
+        MI = common.input_class()
+        shape = (T, L, P)
+        obs, fcst = S.array("obs", shape), S.array("fcst", shape, nan=False)
+        clim = S.array("clim", shape, nan=False)
+        lo, hi = S.real("lo"), S.real("hi")
+        S.assume(lo <= hi)
+        ctype = ["subtract", "divide"][S.choose("clim_type", 2)]
+        cells = list(np.ndindex(*shape))
+        if ctype == "divide":
+            for c in cells:
+                S.assume(S.not_(clim[c] == 0))        # non-finite quotients are C14's subject
+
+        def mk(name, o, fc):
+            return MI(name, common.int_array(S, [86400 * i for i in range(T)]), S.vector([0.0, 30.0][:L]),
+                      common.locations(list(range(1, P + 1))), obs=o, fcst=fc)
+        inp = mk("A.txt", obs.copy(), fcst.copy())
+        X = mk("X.txt", clim.copy(), clim.copy())
+        D = data.Data([inp], clim=X, clim_type=ctype, obs_range=[lo, hi])
+        if S.choose("whole-array-first", 2):
+            D.get_scores(f.Obs(), 0, ax.All(), None)         # what the driver does when it invents thresholds
+        o, fc = D.get_scores([f.Obs(), f.Fcst()], 0, ax.No(), None)
+        want = [c for c in cells if bool(S.and_(S.not_(S.isnan(obs[c])), obs[c] >= lo, obs[c] <= hi))]
+        oe, fe = S.elements(o), S.elements(fc)
+        S.observe("pairs", [oe, fe])
+        if not want:
+            S.prove("nothing-selected-gives-nan", len(oe) == 1 and bool(S.isnan(oe[0])), detail=ctype)
+            return
+
+        def anom(v, c):
+            return v - clim[c] if ctype == "subtract" else S.div(v, clim[c])
+        S.prove("obs-range-applies-to-the-observation-not-the-anomaly", len(oe) == len(want) and
+                bool(S.all(S.and_(S.same(a, anom(obs[c], c)), S.same(b, anom(fcst[c], c))) for a, b, c in zip(oe, fe, want))), detail=ctype)
+    return fn
+
+
 SUBSET_OPTIONS = ["-latrange", "-lonrange", "-elevrange", "-obsrange", "-l", "-lx", "-o", "-t", "-d", "-tod"]
 
 
@@ -235,4 +276,5 @@ def harnesses(tier):
         Harness("times", h_times(2 if thorough else 1), "-t, -d, -tod on symbolic init times"),
         Harness("leadtimes", h_leadtimes(3 if thorough else 2), "-o on symbolic lead times"),
         Harness("obsrange", h_obsrange(2, 2 if thorough else 1, 2), "-obsrange masking"),
+        Harness("obsrange.clim", h_obsrange_clim(2, 1, 2 if thorough else 1), "-obsrange together with -c / -C"),
     ]
